@@ -39,6 +39,9 @@ def rand_operand(rng):
     return ("call", rng.choice(["length", "tostring", "round"]), [rng.choice(["[a]", "'[n]'", '"%.2f"', "2", "[b]"]) for _ in range(rng.randint(1, 3))])
 
 
+REGEXES = ["/^a.*$/", "/road|rail/i", "/x(y)z/", r"/^a\)/", "/(ab/", r"/\(\d+\)/", "/a b/"]
+
+
 def rand_tree(rng, n_ops, level=0):
     """a random abstract tree with n_ops operators; `level` restricts which operators may appear (0 bool … 2 arithmetic)"""
     if n_ops == 0:
@@ -54,6 +57,9 @@ def rand_tree(rng, n_ops, level=0):
     if k in ("or", "and"):
         return (k, rand_tree(rng, left, 0), rand_tree(rng, n_ops - 1 - left, 0))
     if k == "cmp":
+        if rng.random() < .15:
+            # a regular expression as the right operand (its text may hold parentheses, balanced or not)
+            return ("cmp", rng.choice(["~", "~*", "~", "=", "LIKE"]), rand_tree(rng, n_ops - 1, 2), ("atom", rng.choice(REGEXES)))
         return ("cmp", rng.choice(CMP_OPS), rand_tree(rng, left, 2), rand_tree(rng, n_ops - 1 - left, 2))
     return (k, rand_tree(rng, left, 2), rand_tree(rng, n_ops - 1 - left, 2))
 
@@ -138,6 +144,21 @@ def tokenize(s):
     out, i = [], 0
     s = s.strip()
     while i < len(s):
+        while i < len(s) and s[i].isspace():
+            i += 1
+        # a slash in operand position (after an operator, an opening parenthesis, a comma or at the start) opens a regular
+        # expression literal, which the lexer ends at the next slash; in operator position it is the division sign
+        prev = out[-1] if out else None
+        operand_pos = prev is None or prev in ("(", ",") or (TOKEN_RE.match(prev) and TOKEN_RE.match(prev).lastgroup == "op" and prev != ")") \
+            or prev.upper() in ("AND", "OR", "NOT", "IN", "EQ", "NE", "LT", "LE", "GT", "GE", "LIKE")
+        if i < len(s) and s[i] == "/" and operand_pos:
+            j = s.find("/", i + 1)
+            if j > 0:
+                j += 1
+                if j < len(s) and s[j] == "i":
+                    j += 1
+                out.append(s[i:j]); i = j
+                continue
         m = TOKEN_RE.match(s, i)
         if not m or m.end() == i:
             raise ValueError(f"cannot tokenize at {i}: {s[i:i+20]!r}")
@@ -256,21 +277,20 @@ def leaves_of(tokens):
 
 
 def is_one_group(s):
-    s = s.strip()
-    if not (s.startswith("(") and s.endswith(")")):
+    """on the TOKENS of the independent tokenizer (strings, bindings, regular expressions and calls are single tokens)"""
+    try:
+        toks = tokenize(s)
+    except ValueError:
         return False
-    depth, quote = 0, None
-    for i, ch in enumerate(s):
-        if quote:
-            if ch == quote:
-                quote = None
-        elif ch in "\"'`":
-            quote = ch
-        elif ch == "(":
+    if not toks or toks[0] != "(" or toks[-1] != ")":
+        return False
+    depth = 0
+    for i, t in enumerate(toks):
+        if t == "(":
             depth += 1
-        elif ch == ")":
+        elif t == ")":
             depth -= 1
-            if depth == 0 and i < len(s) - 1:
+            if depth == 0 and i < len(toks) - 1:
                 return False
     return depth == 0
 
